@@ -94,7 +94,8 @@ thread_local! {
 }
 
 static INSTALL: Once = Once::new();
-static BT_BUDGET: Mutex<Option<HashMap<String, u32>>> = Mutex::new(None);
+#[allow(clippy::type_complexity)]
+static BT_BUDGET: Mutex<Option<HashMap<String, (u32, Option<(String, u32, Origin)>)>>> = Mutex::new(None);
 
 const HARNESS_DIR: &str = env!("CARGO_MANIFEST_DIR");
 
@@ -183,23 +184,28 @@ pub fn install() {
                 // Location is inside std or a dependency: use the backtrace (bounded number of
                 // captures per location; they cost milliseconds).
                 let key = format!("{}:{}", file, line);
-                let take = {
+                let (take, cached) = {
                     let mut g = BT_BUDGET.lock().unwrap_or_else(|e| e.into_inner());
                     let m = g.get_or_insert_with(HashMap::new);
-                    let c = m.entry(key).or_insert(0);
-                    *c += 1;
-                    *c <= 64
+                    let e = m.entry(key.clone()).or_insert((0u32, None));
+                    e.0 += 1;
+                    (e.0 <= 3000, e.1.clone())
                 };
                 if take {
                     let bt = std::backtrace::Backtrace::force_capture().to_string();
                     if let Some((p, l, o)) = first_repo_frame(&bt) {
                         origin = o;
-                        repo_frame = Some((p, l));
+                        repo_frame = Some((p.clone(), l));
+                        let mut g = BT_BUDGET.lock().unwrap_or_else(|e| e.into_inner());
+                        if let Some(e) = g.get_or_insert_with(HashMap::new).get_mut(&key) {
+                            e.1 = Some((p, l, o));
+                        }
                     }
-                } else {
-                    // same location was attributed before; assume the repository (the only code
-                    // that runs under guard besides the harness's own recorders)
-                    origin = Origin::Repo;
+                } else if let Some((p, l, o)) = cached {
+                    // budget for this std location used up: reuse the last attribution (the
+                    // occurrence is counted under that signature; the first witnesses are exact)
+                    origin = o;
+                    repo_frame = Some((p, l));
                 }
             }
             let pi = PanicInfo {
